@@ -19,6 +19,9 @@ import (
 type goHooks struct {
 	// called in check mode
 	onStore  func(g *goProg, a *AbsState, st *ssa.Store)
+	// mustNotPanic: instructions whose panic is not an acceptable outcome even under a recovering defer (an operand of
+	// an over-copying shortcut: its guard is there to make the shortcut safe, a recovered panic rejects a valid input)
+	mustNotPanic func(in ssa.Instruction) bool
 	onCopy   func(g *goProg, a *AbsState, call *ssa.Call, n Lin, dstOff, dstLen, srcOff, srcLen Lin, dstRoot, srcRoot string, srcHigh bool)
 	onReturn func(g *goProg, a *AbsState, r *ssa.Return)
 	onEdge   func(g *goProg, a *AbsState, from, to *ssa.BasicBlock)
@@ -353,6 +356,12 @@ func (g *goProg) need(a *AbsState, in ssa.Instruction, root, what string, cond L
 				return fmt.Sprintf("%s: max violation %v/%s over state from block %d; the deferred recover does not dominate this instruction", cond.Str(g.tab), st, mx.String(), a.from)
 			})
 		}
+	}
+	if check && g.hooks.mustNotPanic != nil && !g.assertRoots[root] && g.hooks.mustNotPanic(in) {
+		g.coll.check("shortcut", g.siteKey(in, what+"-in-shortcut"), g.prog.InstrPos(in), what+" on an operand of an over-copying shortcut cannot panic: the shortcut's guard makes it safe, a (recovered) panic would reject an input the general path decodes", a.st.entails(cond), func() string {
+			st, mx := a.st.max(cond)
+			return fmt.Sprintf("%s: max violation %v/%s over state from block %d", cond.Str(g.tab), st, mx.String(), a.from)
+		})
 	}
 	if g.assertRoots[root] {
 		if check {
